@@ -100,6 +100,85 @@ def run_one(binary, args, timeout=120):
         return {"error": "unparsable", "raw": line[:300]}
 
 
+REPO_FILES = ("client.c", "iodined.c", "iodine.c", "dns.c", "read.c", "user.c", "encoding.c", "base32.c", "base64.c", "base64u.c", "base128.c", "common.c", "tun.c",
+              "login.c", "md5.c", "fw_query.c", "util.c")
+VG_KINDS = (("Conditional jump or move depends on uninitialised", "uninit.branch"), ("Use of uninitialised value", "uninit.use"), ("Syscall param", "uninit.syscall"),
+            ("Invalid read", "invalid.read"), ("Invalid write", "invalid.write"), ("Source and destination overlap", "overlap"), ("Invalid free", "invalid.free"),
+            ("Mismatched free", "invalid.free"), ("Argument", "fishy.argument"))
+
+
+def parse_valgrind(err):
+    """valgrind error blocks -> list of {kind, where, task} for errors whose innermost non-libc frame is in /repo/src"""
+    out = []
+    blocks = []
+    cur = None
+    for line in err.split("\n"):
+        if not line.startswith("=="):
+            continue
+        t = line.split("== ", 1)[1] if "== " in line else ""
+        kind = None
+        for pat, k in VG_KINDS:
+            if t.startswith(pat):
+                kind = k
+        if kind:
+            cur = {"kind": kind, "frames": []}
+            blocks.append(cur)
+        elif cur is not None and (t.lstrip().startswith("at ") or t.lstrip().startswith("by ")):
+            cur["frames"].append(t.strip())
+        elif cur is not None and not t.strip():
+            cur = None
+    for b in blocks:
+        where, task, harness = "", "", False
+        for f in b["frames"]:
+            # "at 0x...: func (file.c:123)"
+            if "(" not in f:
+                continue
+            func = f.split(": ", 1)[1].split(" (")[0] if ": " in f else "?"
+            loc = f.rsplit("(", 1)[1].rstrip(")")
+            fn = loc.split(":")[0]
+            if not where:
+                if fn in REPO_FILES:
+                    where = "%s@%s" % (func, loc)
+                elif fn.endswith(".cc") or fn.endswith(".h"):
+                    harness = True
+                    break
+            if func == "iodined_main":
+                task = "srv"
+            elif func.endswith("_main") and func[0] == "c" and func[1:-5].isdigit():
+                task = func[:-5]
+        if where and not harness:
+            out.append({"kind": b["kind"], "where": where, "task": task})
+    return out
+
+
+def run_vg(binary, args, timeout=900):
+    """one run under valgrind/memcheck (binary = the vg flavour); the result carries the parsed errors as res['vg']"""
+    env = dict(os.environ, IOSIM_ASLR_OFF="1")
+    cmd = ["valgrind", "-q", "--num-callers=12", "--error-limit=no", binary] + args + ["--nofork"]
+    try:
+        r = subprocess.run(cmd, stdout=subprocess.PIPE, stderr=subprocess.PIPE, timeout=timeout, env=env)
+    except subprocess.TimeoutExpired:
+        return {"error": "valgrind timeout", "args": args}
+    outl = [l for l in r.stdout.decode("utf-8", "replace").split("\n") if l.startswith("{")]
+    try:
+        res = json.loads(outl[-1]) if outl else {"error": "no result line under valgrind", "rc": r.returncode}
+    except Exception:
+        res = {"error": "unparsable result under valgrind"}
+    res["vg"] = parse_valgrind(r.stderr.decode("utf-8", "replace"))
+    return res
+
+
+def run_vg_workers(binary, scen, sets, base, n):
+    from concurrent.futures import ThreadPoolExecutor
+    def one(seed):
+        res = run_vg(binary, ["--gen", scen, "--seed", str(seed)] + sets_args(sets))
+        res.setdefault("seed", seed)
+        return res
+    with ThreadPoolExecutor(max_workers=NW) as ex:
+        for res in ex.map(one, [base + i for i in range(n)]):
+            yield res
+
+
 def crash_func(res):
     w = res.get("where", "")
     return w.split("@")[0] if w else ""
@@ -143,6 +222,16 @@ def classes_of(res, pid, spec):
             prop = None
         if prop == pid:
             cl.append(("crash", res["crash"] + ":" + res.get("what", "").split(" ")[0][:40], crash_func(res)))
+    for e in res.get("vg", []):
+        # memcheck: a decision or output that depends on bytes nobody wrote is C12's subject (interpretation from stale memory);
+        # invalid accesses belong to the memory-safety properties of the program they happen in
+        if e["kind"].startswith("uninit"):
+            prop = "C12"
+        else:
+            prop = "C05" if e["task"] == "srv" else "C06"
+        c = ("vg", e["kind"], e["where"].split("@")[0])
+        if prop == pid and c not in cl:
+            cl.append(c)
     return cl
 
 
@@ -187,15 +276,16 @@ def write_json(path, obj):
 
 
 class Replayer:
-    def __init__(self, binary, pid, spec, tmpdir):
+    def __init__(self, binary, pid, spec, tmpdir, runner=None):
         self.binary, self.pid, self.spec, self.tmpdir = binary, pid, spec, tmpdir
+        self.runner = runner or run_one
         self.n = 0
 
     def run(self, plan):
         self.n += 1
         path = os.path.join(self.tmpdir, "cand.%d.json" % os.getpid())
         write_json(path, plan)
-        res = run_one(self.binary, ["--replay", path])
+        res = self.runner(self.binary, ["--replay", path])
         return res
 
     def has(self, plan, cls):
@@ -254,21 +344,26 @@ def gate_and_minimise(binary, pid, spec, job, seed, cls, first_res):
     tmpdir = os.path.join(VERIF, BUILDDIR, "tmp")
     os.makedirs(tmpdir, exist_ok=True)
     planpath = os.path.join(tmpdir, "plan.%d.json" % os.getpid())
-    res2 = run_one(binary, ["--gen", job["scen"], "--seed", str(seed), "--plan-out", planpath] + sets_args(job.get("sets", {})))
+    runner = run_vg if job.get("vg") else run_one
+    if job.get("vg"):
+        binary = os.path.join(VERIF, BUILDDIR, "vg", "iosim")
+    res2 = runner(binary, ["--gen", job["scen"], "--seed", str(seed), "--plan-out", planpath] + sets_args(job.get("sets", {})))
     if cls not in classes_of(res2, pid, spec) or res2.get("fp") != first_res.get("fp"):
         return None, "re-run of seed %d differs (fp %s vs %s)" % (seed, res2.get("fp"), first_res.get("fp"))
     plan = json.load(open(planpath))
     plan = with_fates(plan, res2)
-    rp = Replayer(binary, pid, spec, tmpdir)
+    rp = Replayer(binary, pid, spec, tmpdir, runner)
     ok, res3 = rp.has(plan, cls)
     if not ok:
         return None, "explicit replay of seed %d does not reproduce %s" % (seed, class_key(cls))
-    mplan = minimise(rp, plan, cls)
+    mplan = minimise(rp, plan, cls, max_tests=min(int(os.environ.get("VERIF_MINIMISE_BUDGET", "250")), 40) if job.get("vg") else None)
     ok1, r1 = rp.has(mplan, cls)
     ok2, r2 = rp.has(mplan, cls)
     if not (ok1 and ok2) or r1.get("fp") != r2.get("fp"):
         return None, "minimised replay is not stable"
-    mplan["expect"] = {"property": pid, "class": list(cls), "fp": r1.get("fp"), "detail": [v for v in r1.get("viol", []) if v["p"] == pid][:1] or r1.get("what", "")}
+    mplan["expect"] = {"property": pid, "class": list(cls), "fp": r1.get("fp"), "detail": [v for v in r1.get("viol", []) if v["p"] == pid][:1] or r1.get("what", "") or [e for e in r1.get("vg", []) if e["kind"] == cls[1]][:1]}
+    if job.get("vg"):
+        mplan["expect"]["runner"] = "valgrind"
     name = "%s-%s-%d.json" % (cls[1].replace("/", "_").replace(":", "_").replace(" ", "_")[:40] or cls[0], (cls[2] or "x")[:30], seed)
     path = os.path.join(REPLAYS, pid, name)
     write_json(path, mplan)
@@ -279,11 +374,13 @@ def do_replay(path):
     plan = json.load(open(path))
     exp = plan.get("expect", {})
     pid = exp.get("property", "?")
-    binary = build("asan")
-    res = run_one(binary, ["--replay", path])
+    if exp.get("runner") == "valgrind":
+        res = run_vg(build("vg"), ["--replay", path])
+    else:
+        res = run_one(build("asan"), ["--replay", path])
     cls = tuple(exp.get("class", []))
     got = classes_of(res, pid, PROPS.get(pid, {}))
-    print(json.dumps({k: res.get(k) for k in ("viol", "crash", "what", "where", "task", "fp")}))
+    print(json.dumps({k: res.get(k) for k in ("viol", "crash", "what", "where", "task", "fp", "vg")}))
     if cls in got:
         print("VIOLATION property=%s replay=%s" % (pid, path))
         return 1
@@ -320,12 +417,17 @@ def main():
     notes = {}      # other-property hits
     errors = []
     jobs_done = []
+    vgseen = {}
     scale = float(os.environ.get("VERIF_SCALE", "1"))
     for ji, job in enumerate(spec["jobs"]):
         n = max(NW, int(job[tier] * scale))
         base = seed0 * 100000000 + ji * 10000000
         tj = time.time()
-        results = run_workers(binary, job["scen"], job.get("sets", {}), base, n)
+        if job.get("vg"):
+            n = max(NW, int(job[tier] * scale)) if job[tier] else 0
+            results = run_vg_workers(build("vg"), job["scen"], job.get("sets", {}), base, n)
+        else:
+            results = run_workers(binary, job["scen"], job.get("sets", {}), base, n)
         nj = 0
         for res in results:
             if "error" in res and "seed" not in res:
@@ -351,6 +453,11 @@ def main():
                                     "counters": {k: v for k, v in list(res.get("cnt", {}).items())[:24]}})
             if "crash" in res:
                 agg["crashes"] += 1
+            if job.get("vg"):
+                agg["vg_runs"] = agg.get("vg_runs", 0) + 1
+                for e in res.get("vg", []):
+                    k = "vg/%s/%s" % (e["kind"], e["where"])
+                    vgseen[k] = vgseen.get(k, 0) + 1
             for c in classes_of(res, pid, spec):
                 if c not in found or res["seed"] < found[c][1]:
                     found[c] = (job, res["seed"], res)
@@ -364,7 +471,7 @@ def main():
                 notes[k] = notes.get(k, 0) + 1
                 if (res.get("task", "") == "" and res["crash"] != "hang") or is_harness_crash(res):
                     errors.append({"error": "crash outside any simulated task", "seed": res.get("seed"), "what": res.get("what"), "log": res.get("log", "")[:600]})
-        jobs_done.append({"scenario": job["scen"], "sets": job.get("sets", {}), "runs": nj, "wall_s": round(time.time() - tj, 1)})
+        jobs_done.append({"scenario": job["scen"], "sets": job.get("sets", {}), "runs": nj, "wall_s": round(time.time() - tj, 1), **({"runner": "valgrind memcheck"} if job.get("vg") else {})})
 
     # ---- verdicts
     rc = 0
@@ -416,6 +523,7 @@ def main():
             "abnormal_child_ends": agg["crashes"],
             "jobs": jobs_done,
             "other_property_hits": notes,
+            "memcheck": {"runs_under_valgrind": agg.get("vg_runs", 0), "errors_in_repo_code": vgseen},
             "known_findings_seen": known_lines,
             "components": {"real": ["src/iodine.c", "src/client.c", "src/iodined.c", "src/user.c", "src/fw_query.c", "src/dns.c", "src/read.c", "src/encoding.c",
                                     "src/base32.c", "src/base64.c", "src/base64u.c (generated)", "src/base128.c", "src/login.c", "src/md5.c", "src/common.c", "src/tun.c", "src/util.c"],
